@@ -159,6 +159,17 @@ def gen(seed, idx, tier):
             t = round(r.uniform(0.05, 5.0), 6) + 3e-8  # never the arrival instant of a scenario datagram
         src = r.choice([["10.0.0.1", 30490], ["10.0.0.2", 30490], ["10.0.0.66", 30490], ["10.0.0.66", 1234]]) if kind != "unicast-flag-clear" else ["10.0.0.77", 30490]
         ops.append({"k": "inject", "t": t, "to": r.choice("AB"), "ch": r.choice("um"), "src": src, "hex": data.hex(), "kind": kind})
+    if r.random() < 0.2:
+        # a fresh sender: a valid Offer, its StopOffer, then the very same Offer bytes with only the unicast flag cleared
+        src = ["10.0.0.78", 30490]
+        t0 = round(r.uniform(0.3, 3.0), 6) + 3e-8
+        key = r.choice([(0x1111, 9, 1, 0), (0x1111, 1, 1, 0)])
+        o1 = refdec.enc_sd_message([refdec.offer(*key, 3)], 5, reboot=True)
+        o0 = refdec.enc_sd_message([refdec.offer(*key, 0)], 6, reboot=True)
+        o3 = refdec.enc_sd_message([refdec.offer(*key, 3)], 7, reboot=True, unicast=False)
+        to, ch = r.choice("AB"), r.choice("um")
+        for dt, data, kind in ((0.0, o1, "valid"), (0.2, o0, "valid"), (0.4, o3, "unicast-flag-clear")):
+            ops.append({"k": "inject", "t": round(t0 + dt, 9), "to": to, "ch": ch, "src": src, "hex": data.hex(), "kind": kind})
     if r.random() < 0.3:
         ops.append({"k": "node", "t": round(r.uniform(1.0, 4.0), 6), "n": r.choice("AB"), "f": r.choice(["stop", "crash"])})
     return {"engine": "pair", "property": ID, "class": "twin", "seed": seed, "cfg": cfg, "ops": ops, "until": 7.0}
@@ -290,7 +301,9 @@ def check(plan, res):
                 probes["rejected_sd_header" if not refdec.is_sd_header(m) else "rejected_sd_payload"] = probes.get("rejected_sd_header" if not refdec.is_sd_header(m) else "rejected_sd_payload", 0) + 1
             elif c == "sd" and to_sd:
                 sdm = refdec.dec_sd(m.payload)
-                if sdm.unicast or op.get("kind") != "unicast-flag-clear":
+                if sdm.unicast and op.get("kind") == "valid" and tuple(op.get("src", ("",)))[0] == "10.0.0.78":
+                    probes["valid_kept_in_twin"] = probes.get("valid_kept_in_twin", 0) + 1  # stays in the twin: affects both runs alike
+                elif sdm.unicast or op.get("kind") != "unicast-flag-clear":
                     all_rejected = False
                     probes["decodable_sd_injected"] = probes.get("decodable_sd_injected", 0) + 1
                 else:
@@ -336,7 +349,7 @@ def check(plan, res):
                     v1, v2 = s1[part], s2[part]
                     if part == "incoming":
                         # a decodable SD message with the unicast flag clear legitimately leaves its sender's session record
-                        flag_srcs = {tuple(op["src"]) for op in injected if op.get("kind") == "unicast-flag-clear"}
+                        flag_srcs = {tuple(op["src"]) for op in injected if op.get("kind") == "unicast-flag-clear" and "src" in op}
                         v1 = [x for x in v1 if x[0][0] not in flag_srcs]
                         v2 = [x for x in v2 if x[0][0] not in flag_srcs]
                     if v1 != v2:
